@@ -21,13 +21,13 @@ EXCLUDED = {('ClockStateContainer', 'DateAndTime')}
 
 
 def canon_value(v, prop=None):
-    if v is None or isinstance(v, (bool, int, str)):
-        return v
-    if prop is not None:
+    if prop is not None and v is not None and not isinstance(v, bool):
         if isinstance(prop, _TS_PROPS) and isinstance(v, (int, float, Decimal)):
             return ('ts', int(round(v * 1000)))
         if isinstance(prop, _DUR_PROPS) and isinstance(v, (int, float, Decimal)):
             return ('dur', int(round(float(v) * 1_000_000)))
+    if v is None or isinstance(v, (bool, int, str)):
+        return v
     if isinstance(v, float):
         return ('f', repr(v))
     if isinstance(v, Decimal):
